@@ -314,6 +314,9 @@ def shard(ctx):
             "stray-brace": "a: }\n", "colon-soup": "key: : :\n  - x: [\n",
             "int-key": "1: x\n", "float-key": "1.5: x\n", "bool-key": "true: x\n", "null-key": "null: x\n", "list-key": "? [a, b]\n: 1\n", "map-key": "? {a: 1}\n: 2\n",
             "nested-int-key": "a:\n  b:\n    7: x\n", "json-int-key-like": "{1: 2}\n",
+            # a short-form tag in key position stands for a map ({Ref: x}): a non-string key like `? {Ref: x}`
+            "tagged-ref-key": "a:\n  !Ref LogBucket: 1\n", "tagged-sub-key-flow": "{a: {!Sub \"${A}\": 1}}\n", "tagged-getatt-key": "? !GetAtt a.b\n: 1\n",
+            "long-form-ref-key": "? {Ref: LogBucket}\n: 1\n", "tagged-int-key": "!!int 5: x\n",
         }
         for name, text in bad_docs.items():
             for fe in ("validate", "payload", "run_checks", "test", "load-validate", "load-serde"):
